@@ -727,7 +727,7 @@ def check_C04(ctx):
         prop={"dec": lambda r: r["ist"] != "PANIC" and "input-modified" not in r["flags"] and "slow" not in r["flags"]},
         tie={"dec": tie_dec_class}, nontrivial=nontrivial_any,
         trusted=["runtime facts observed, not modelled: Go stack growth on 10 000-deep nesting, wall-clock time, recover()"],
-        rule=DEC_RULE + " (malformed stream) + 10 000-deep sub-message and 10 001-deep group inputs under a watchdog; projection: outcome class ok/err/PANIC/slow and input bytes before/after"))
+        rule=DEC_RULE + " (malformed stream) + 10 000-deep sub-message and 10 001-deep group inputs under a watchdog, three million nested unknown groups under a 64 MiB stack limit (a driver killed by a fatal runtime error is a violation); projection: outcome class ok/err/PANIC/slow and input bytes before/after"))
 
 
 def check_C05(ctx):
